@@ -451,4 +451,35 @@ def glue10(ctx: Ctx) -> None:
         ctx.R.undecided("GLUE-10", "some path through the scan loop skips the installer call; cannot decide whether the skipped modules can have pending glue")
 
 
-C17 = [glue_rules, glue9, glue10]
+def glue11(ctx: Ctx) -> None:
+    """GLUE-11 the per-module installer settles the module it is given: on every path to a normal return both references have been
+    taken (the pending built-in entry popped, the module's own attribute popped or found absent).  A path that returns early
+    leaves glue pending for a module that the scan has already counted as visited (the length cache then covers it): that
+    glue waits for some unrelated later import"""
+    mod = ctx.P.mod("_glue")
+    if not mod.has("install_glue_for_module"):
+        ctx.R.note("GLUE-11: no separate installer function (pops are in add_glue_as_needed: covered by GLUE-10)")
+        return
+    fn = mod.fn("install_glue_for_module")
+    ctx.R.saw(mod, "install_glue_for_module")
+    g = ctx.cfg(fn)
+    pops = [_stmt(mod, c) for c in ast.walk(fn) if isinstance(c, ast.Call) and isinstance(c.func, ast.Attribute) and c.func.attr == "pop" and PENDING in norm(c.func.value)]
+    if not pops:
+        raise AnalysisError("GLUE-11: install_glue_for_module no longer pops the pending registry")
+    through = {g.node_of(p_).idx for p_ in pops}
+    rets = [r for r in ast.walk(fn) if isinstance(r, ast.Return) and mod.enclosing_def(r) is fn]
+    bad = None
+    for r in rets:
+        rn = g.node_of(r)
+        if not g.all_paths_pass(g.entry, {rn.idx}, through):
+            bad = r
+            break
+    if bad is None:
+        ctx.R.ok("GLUE-11", "every return of install_glue_for_module has taken the pending built-in entry first")
+    else:
+        conds = [norm(gx)[:60] for gx, pol in guards_of(mod, bad, fn)]
+        ctx.R.fail("GLUE-11", mod, bad, f"install_glue_for_module returns (under {conds or 'some condition'}) before taking the module's pending glue: the module counts as visited by the scan, the length "
+                   "cache then skips it, and its glue runs only after some unrelated later import", construct="installer returns with glue still pending")
+
+
+C17 = [glue_rules, glue9, glue10, glue11]
